@@ -198,8 +198,35 @@ func mkCase(r *rng.R, toks []smltext.Tok, kind, move string, stats func(map[stri
 			sp1, n1 = sizeSpellings(r, toks, nil)
 			sp2, n2 = sizeSpellings(r, toks, nil)
 		}
+		huge := 0
+		if r.Chance(1, 300) {
+			// one gap of the second rendering grows beyond 65536 columns or lines (positions are not 16-bit quantities)
+			n := []int{65530, 65534, 65535, 65536, 65537, 65541, 70000, 131071, 131073}[r.Intn(9)]
+			fill := " "
+			if r.Chance(1, 3) {
+				fill = "\n"
+			}
+			var cand []int
+			for j, gp := range g2 {
+				if gp != "" {
+					cand = append(cand, j)
+				}
+			}
+			if len(cand) > 0 {
+				j := cand[r.Intn(len(cand))]
+				g2 = append([]string(nil), g2...)
+				g2[j] = strings.Repeat(fill, n) + g2[j]
+				huge = 1
+			} else {
+				l2 = strings.Repeat(fill, n) + l2
+				huge = 1
+			}
+		}
 		rd1 = smltext.Render(toks, l1, g1, sp1)
 		rd2 = smltext.Render(toks, l2, g2, sp2)
+		if stats != nil && huge > 0 {
+			stats(map[string]int{"gap-beyond-65536-columns-or-lines": huge})
+		}
 		if stats != nil {
 			stats(s1)
 			stats(s2)
@@ -222,7 +249,7 @@ func forceGaps(toks []smltext.Tok) []smltext.Tok {
 }
 
 func runC08(c *ctx) {
-	c.Rule = "one token sequence, two renderings. Sequences: valid messages (1-3 per text, all literal forms), valid messages with one token deleted/duplicated/replaced (always-separated tokens), valid messages in which one value is replaced in place by a literal of another kind or spelling, token soups from the SML vocabulary. Layout move: every gap becomes any non-empty mix of space/tab/LF/CRLF (optional gaps may appear/disappear only where the harness's own rule says the two tokens cannot merge), // comments with 45 bodies (punctuation, several scripts, every kind of final byte incl. ...0x85, ...0xA0, VT, FF, NBSP, U+2028, quotes) appended to any line, with or without a final line break. Case move: S/F, W, [W], direction, type names, T/F, 0X/0B/0O, hex digits, exponent E. Oracle: identical messages (all observers), same number of errors and warnings, same texts (case-insensitively for case moves), and each diagnostic's position must be the position of the same token (same offset inside it) or the end of input in the other rendering. non-trivial = the renderings differ and contain a comment or >= 4 tokens; distinct by the pair of texts"
+	c.Rule = "one token sequence, two renderings. Sequences: valid messages (1-3 per text, all literal forms), valid messages with one token deleted/duplicated/replaced (always-separated tokens), valid messages in which one value is replaced in place by a literal of another kind or spelling, token soups from the SML vocabulary. Layout move: every gap becomes any non-empty mix of space/tab/LF/CRLF (optional gaps may appear/disappear only where the harness's own rule says the two tokens cannot merge), // comments with 45 bodies (punctuation, several scripts, every kind of final byte incl. ...0x85, ...0xA0, VT, FF, NBSP, U+2028, quotes) appended to any line, with or without a final line break; now and then one gap of more than 65536 blanks or line breaks. Case move: S/F, W, [W], direction, type names, T/F, 0X/0B/0O, hex digits, exponent E. Oracle: identical messages (all observers), same number of errors and warnings, same texts (case-insensitively for case moves), and each diagnostic's position must be the position of the same token (same offset inside it) or the end of input in the other rendering. non-trivial = the renderings differ and contain a comment or >= 4 tokens; distinct by the pair of texts"
 	c.Assume = []string{"the renderer's (line, column) convention: line = 1 + number of LF before, column = 1 + characters since the last LF", "optional gaps are only used inside valid messages, where the harness's GapRequired rule says the neighbours cannot merge", "comment bodies contain a double quote only when every token has balanced quotes"}
 	var statMu = make(chan struct{}, 1)
 	agg := map[string]int{}
@@ -336,7 +363,7 @@ func runC08(c *ctx) {
 	for k, v := range agg {
 		c.ClassN("layout/"+k, int64(v))
 	}
-	c.Required = []string{"move/layout/valid", "move/layout/mutated", "move/layout/soup", "move/layout/odd-literal", "move/case/odd-literal", "move/case/valid", "accepted", "with-errors", "layout/comment", "layout/comment-final-byte/0xa0", "layout/comment-final-byte/0x85", "layout/comment/final-without-eol", "layout/size-declaration-with-inner-line-break", "diagnostic-at/token", "diagnostic-at/end"}
+	c.Required = []string{"move/layout/valid", "move/layout/mutated", "move/layout/soup", "move/layout/odd-literal", "move/case/odd-literal", "move/case/valid", "accepted", "with-errors", "layout/comment", "layout/comment-final-byte/0xa0", "layout/comment-final-byte/0x85", "layout/comment/final-without-eol", "layout/size-declaration-with-inner-line-break", "layout/gap-beyond-65536-columns-or-lines", "diagnostic-at/token", "diagnostic-at/end"}
 }
 
 func replayC08(c *ctx, raw json.RawMessage) {
